@@ -18,15 +18,15 @@ LEVEL_TEXT = (
 )
 
 CLAIMED = {
-    "C01": ("§2 C01", "container-API resolution, guarded one-past-the-end subscripts, run-start dependence, uniqueness guarantees (schema+assertions), candidate def-use, CLI wiring",
+    "C01": ("§2 C01", "container-API resolution, guarded one-past-the-end subscripts, run-start dependence, uniqueness guarantees (schema+assertions), candidate def-use, CLI wiring, no unpacking along a data-dependent axis without an emptiness test",
             "Residue: totality in general (numeric exceptions), termination argued via C02 skeleton. Trusts numpy semantics table and SQLite constraint enforcement."),
-    "C02": ("§2 C02", "deferred-acceptance skeleton conformance: ordering parity (D-ord), polarity of preference metrics, re-queue ordering on CFG, duration metric by affine lengths",
+    "C02": ("§2 C02", "deferred-acceptance skeleton conformance: ordering parity (D-ord), polarity of preference metrics, re-queue ordering on CFG, duration metric by affine lengths, completeness of the groups both preference tables are built from (no groupby over an unsorted sequence)",
             "Residue: the Gale-Shapley theorem itself; tie handling."),
-    "C03": ("§2 C03", "comparison normal forms of threshold predicates, sibling consistency, affine index/epoch conventions at SQL sinks, reader/writer interval predicates, SQL AST of rain-depth view",
+    "C03": ("§2 C03", "comparison normal forms of threshold predicates, sibling consistency, affine index/epoch conventions at SQL sinks, reader/writer interval predicates, SQL AST of rain-depth view, index spaces of looked-up positions, cursor typestate of the per-interval loop",
             "Residue: numpy cumsum labelling of interior runs is not re-derived."),
-    "C04": ("§2 C04", "finite-skeleton extraction of the flag automaton (all 8 valuations), boolean normal form of flags, affine alignment of rates, INSERT column/argument lineage",
+    "C04": ("§2 C04", "finite-skeleton extraction of the flag automaton (all 8 valuations), boolean normal form of flags, affine alignment of rates, INSERT column/argument lineage, cursor typestate of the per-interval loop",
             "Residue: maximal-run labelling as in C03."),
-    "C05": ("§2 C05", "algebraic normal form of the assembled residual row vs. the gradient of the stated objective; def-use of normal-equation operands; reference position",
+    "C05": ("§2 C05", "algebraic normal form of the assembled residual row vs. the gradient of the stated objective; def-use of normal-equation operands; reference position; connected components merge every group a level bridges",
             "Residue: conditioning/singularity, floating point."),
     "C07": ("§2 C07", "time-origin lattice dataflow (ABS/REL/ABS~) from epoch sources to comparisons and stored columns",
             "Residue: equivariance of float arithmetic on origin-free values."),
@@ -34,9 +34,9 @@ CLAIMED = {
             "Residue: numeric tolerance of the on-grid test."),
     "C10": ("§2 C10", "SQL AST rules on grid bounds / copies / row order (rowid-alias lemma), interpolation argument lineage and index-space agreement, validity intervals as symbolic sequences (first grid instant, per-gap samples, last grid instant), sentinel and gap predicate normal forms",
             "Residue: numeric equality of np.interp; gap detection threshold."),
-    "C11": ("§2 C11", "time-zone API provenance discipline, same-zone def-use, guard dominance of refusals over writes (CFG + call graph)",
+    "C11": ("§2 C11", "time-zone API provenance discipline, same-zone def-use, guard dominance of refusals over writes (CFG + call graph), premise of the foreign-key fallback for non-uniform steps",
             "Residue: pytz tables; DST-ambiguous hours."),
-    "C12": ("§2 C12", "library API resolution against installed numpy/scipy, rounding-function agreement and half-open range shapes, bracket index agreement, default interpolant",
+    "C12": ("§2 C12", "library API resolution against installed numpy/scipy, rounding-function agreement and half-open range shapes, pair coverage (every pair of consecutive samples, exact filters only), bracket index agreement, default interpolant",
             "Residue: brentq tolerance; samples one ulp beside a level."),
     "C13": ("§2 C13", "entity typing of SQL joins from the FK graph, interval-kind predicates, lineage of every stored row resolved through loop bindings / per-row lists / index look-ups, grid-step lineage, index-translation table, cursor typestate, grid containment",
             "Residue: top level when max/step is an integer (documented numeric edge)."),
@@ -44,15 +44,15 @@ CLAIMED = {
             "Residue: FITPACK itself; splint modelled as documented."),
     "C15": ("§2 C15", "branch/formula normal forms of call_scalar, exp-of-log-spline order 1, array path = mapped scalar path, unit bookkeeping",
             "Residue: quadrature accuracy."),
-    "C16": ("§2 C16", "API resolution; cross-language algebraic normal-form agreement between the R reference and specific_yield.py; transmissivity normal form; refusal dominance",
+    "C16": ("§2 C16", "API resolution; cross-language algebraic normal-form agreement between the R reference and specific_yield.py; transmissivity normal form; refusal dominance; layer sum is not a quadrature routine",
             "Residue: numerical agreement with R output."),
-    "C17": ("§2 C17", "affine cell-integral indices, polarity of the mean shift, SQL ordering/binding, label/column/unit agreement",
+    "C17": ("§2 C17", "affine cell-integral indices, polarity of the mean shift, SQL ordering/binding, row integrity of 2-D row arrays, label/column/unit agreement",
             "Residue: inherited from C14; YAML layout."),
     "C18": ("§2 C18", "integrand normal form, cell integrals, unit bookkeeping, ET interval-predicate rule, output ordering parity and label/unit agreement",
             "Residue: quadrature; sign of denominator."),
     "C19": ("§2 C19", "symbolic line counts vs declared counts, name-family equality, ordering parity pst vs simulate, format precision, instruction window width, marker agreement, template/constructor keys",
             "Residue: PEST's own parsing rules."),
-    "C20": ("§2 C20", "transaction-effect analysis: call-graph + CFG reachability from commit points to writes, handler discipline, connection mode, Bernstein conditions on table read/write sets",
+    "C20": ("§2 C20", "transaction-effect analysis: call-graph + CFG reachability from commit points to writes, handler discipline, connection mode, first keyword of every write (driver-opened transaction), Bernstein conditions on table read/write sets",
             "Trusted base: SQLite atomic commit; CPython sqlite3 legacy transaction control. O5 is a sufficient condition (labelled)."),
 }
 
